@@ -126,13 +126,35 @@ pub fn d2b_async_restore_no_eviction() -> Option<Violation> {
     }
 }
 
+/// D8 (C04): async TLRU, limit 2, frequency_weight 2000: every resident with two or more hits
+/// scores infinity; the overflowing store must still evict one of them.
+pub fn d8_async_tlru_infinite_scores() -> Option<Violation> {
+    for w in [2000.0f64, f64::MAX] {
+        let s = AStore::new();
+        let c = AsyncGlobalCache::new(&s.map, &s.order, Some(2), None, EvictionPolicy::TLRU, None, Some(w), &s.stats);
+        c.insert("a", "1".into());
+        c.insert("b", "2".into());
+        for _ in 0..3 {
+            let _ = c.get("a");
+            let _ = c.get("b");
+        }
+        c.insert("c", "3".into());
+        let k = s.keys();
+        if k.len() > 2 {
+            return v("C04:async:tlru:bound", "limit 2, TLRU with frequency_weight 2000: a, b hit three times each, store c: at most 2 entries", format!("{:?} (frequency_weight {:e})", k, w));
+        }
+    }
+    None
+}
+
 pub fn cases_for(id: &str) -> Vec<(&'static str, fn() -> Option<Violation>)> {
     match id {
         "C16" => vec![("D1 thread-local LFU/ARC/TLRU overflow", d1_thread_local_overflow as fn() -> Option<Violation>)],
         "C01" => vec![("D2 async last store wins", d2_async_last_store_wins as fn() -> Option<Violation>)],
         "C07" => vec![("D3 async LRU with max_memory only", d3_async_lru_memory_only as fn() -> Option<Violation>)],
         "C08" => vec![("D4 async ARC/TLRU recency rank", d4_async_arc_recency as fn() -> Option<Violation>)],
-        "C04" => vec![("D2b async re-store into a full cache", d2b_async_restore_no_eviction as fn() -> Option<Violation>)],
+        "C04" => vec![("D2b async re-store into a full cache", d2b_async_restore_no_eviction as fn() -> Option<Violation>), ("D8 async TLRU with infinite scores", d8_async_tlru_infinite_scores as fn() -> Option<Violation>)],
         _ => vec![],
     }
 }
+
